@@ -13,11 +13,15 @@
     Subs.lean     subsGen_sem (eager_subs at value level: numbers/variables/slices/index tensors), getitem_semI
     Einsum.lean   einsum_sem (eager_einsum's batch-subscript construction)
     Carriers.lean logaddexp carrier: cmon_lae, rep_lae (x + log m), fold_unrelated_lae; Bool: fold_unrelated_bool (Algebra)
+    Phi.lean      uninterpreted scalar functions (exp, log, sigmoid, …): mapData_sem, readAt_mapData, binary_/eagerReduce_/subsNum_/getitem_mapData_sem, atAll_mapData
+    Independent.lean  pevalR_sound, independent_sem (diagonal extraction + body + sum)
+    Reshape.lean  allIdx_ravel, reshape_self, reshapeS_sem_partial (the arg.shape == shape shortcut)
     Total.lean    peval_total_core, core_complete_and_sound (typing commutes with evaluation)
   This file: non-vacuity examples.
 -/
 import FunsorVerif.Props.C01.Total
 import FunsorVerif.Props.C01.Einsum
+import FunsorVerif.Props.C01.Reshape
 namespace FV.Props.C01
 open FV FV.C01
 
